@@ -4,11 +4,11 @@
 INDEX = {
     "C01": ["c01", "c04"],
     "C02": ["c01"],
-    "C03": ["c03", "c20", "c16", "c11", "c09", "c17"],
+    "C03": ["c03", "c20", "c16", "c11", "c09", "c17", "c08", "c13"],
     "C04": ["c04", "c06"],
     "C05": ["c05"],
     "C06": ["c06"],
-    "C07": ["c06"],
+    "C07": ["c06", "c04"],
     "C08": ["c08"],
     "C09": ["c09"],
     "C10": ["c10"],
